@@ -35,6 +35,8 @@ pub struct Profile {
     /// probability (1/100) that a transaction uses magnitudes of 10^12..10^25 (no prices), so that
     /// sums stay representable while products of two totals would not
     pub huge_pct: u64,
+    /// never put a lot price and a cost on the same posting (keeps 'the price this posting records' unambiguous)
+    pub exclusive_price: bool,
 }
 
 pub const P_BALANCE: Profile = Profile {
@@ -48,6 +50,7 @@ pub const P_BALANCE: Profile = Profile {
     omitted_bias: false,
     declare_precision_pct: 70,
     huge_pct: 6,
+    exclusive_price: false,
 };
 
 pub const P_ASSERT: Profile = Profile {
@@ -61,6 +64,7 @@ pub const P_ASSERT: Profile = Profile {
     omitted_bias: false,
     declare_precision_pct: 40,
     huge_pct: 3,
+    exclusive_price: false,
 };
 
 pub const P_INFER: Profile = Profile {
@@ -74,6 +78,7 @@ pub const P_INFER: Profile = Profile {
     omitted_bias: true,
     declare_precision_pct: 40,
     huge_pct: 3,
+    exclusive_price: false,
 };
 
 /// Report-oriented: only accepted transactions matter, many dates.
@@ -88,6 +93,22 @@ pub const P_REPORT: Profile = Profile {
     omitted_bias: true,
     declare_precision_pct: 50,
     huge_pct: 2,
+    exclusive_price: false,
+};
+
+/// Conversion reports: many prices from costs and lots, never both on one posting, no huge values.
+pub const P_CONVERT: Profile = Profile {
+    assertion_pct: 3,
+    assignment_pct: 5,
+    cost_pct: 30,
+    lot_pct: 12,
+    expr_pct: 5,
+    invalid_pct: 0,
+    max_history: 30,
+    omitted_bias: true,
+    declare_precision_pct: 50,
+    huge_pct: 0,
+    exclusive_price: true,
 };
 
 const VALUES: &[(i128, u32)] = &[
@@ -247,7 +268,7 @@ impl<'r> BookGen<'r> {
             let a = self.price(&commodity);
             p.cost = Some(if self.rng.chance(1, 2) { Price::Rate(a) } else { Price::Total(a) });
         }
-        if self.rng.chance(self.profile.lot_pct, 100) {
+        if self.rng.chance(self.profile.lot_pct, 100) && !(self.profile.exclusive_price && p.cost.is_some()) {
             let a = self.price(&commodity);
             p.lot = Some(if self.rng.chance(2, 3) { Price::Rate(a) } else { Price::Total(a) });
         }
